@@ -3,6 +3,7 @@ import ast
 
 from .. import util
 from ..interp import Interp, Path, exc_value, is_exc, show, strip_sites, subterms, NONE, abs_value
+from .. import slots
 from ..report import Undecided, AnchorMissing
 from . import common
 
@@ -134,8 +135,8 @@ def meta_register(chk):
         return
     PAYLOADS = ("sym", a.vararg.arg)
     FL = ("sym", "flavour")
-    RUNNERS = ("attr", SELF, "_runners")
-    QUEUES = ("attr", SELF, "_runner_queues")
+    RUNNERS = ("attr", SELF, slots.runners_map(prog))
+    QUEUES = ("attr", SELF, slots.queues_map(prog))
     KEYERR = exc_value("ext:builtins.KeyError", "no-runner")
     ok = True
     for have_runner in (True, False):
@@ -213,7 +214,7 @@ def meta_register(chk):
     if ok:
         chk.ok("O3.1", name, "live runner: each payload registered exactly once, in order; before start: all payloads queued under the flavour; unknown flavour while running: raises", node=fi.node, input="runner exists/missing x running/not")
     # ---- the flush
-    uq = prog.method(META, "_unqueue_payloads")
+    uq = slots.unqueuer(prog)
     outs = Interp(prog, uq, unroll=2, decide=lambda it, p, t: True if (t[0] == "call" and t[1][0] == "attr" and t[1][2] == "is_set") else None).run()
     chk.count(len(outs))
     ok = True
@@ -242,27 +243,27 @@ def meta_register(chk):
             if dict((kk, v) for kk, v in r[3] if kk).get("flavour") != key:
                 chk.bad("O3.2", uq.qual, "a queue is re-registered under flavour %s instead of its own key" % show(dict((kk, v) for kk, v in r[3] if kk).get("flavour")), node=uq.node, stmt="flush-flavour")
                 ok = False
-            if strip_sites(item[1]) != ("call", ("attr", ("attr", SELF, "_runner_queues"), "items"), (), ()):
+            if strip_sites(item[1]) != ("call", ("attr", ("attr", SELF, slots.queues_map(prog)), "items"), (), ()):
                 chk.bad("O3.1", uq.qual, "the flush ranges over %s" % show(item[1]), node=uq.node, stmt="flush-domain")
                 ok = False
-        cleared = [e for e in evs if e[0] == "call" and e[1][1] == ("attr", ("attr", SELF, "_runner_queues"), "clear")]
+        cleared = [e for e in evs if e[0] == "call" and e[1][1] == ("attr", ("attr", SELF, slots.queues_map(prog)), "clear")]
         if iters and not cleared and not all(any(e[0] == "call" and e[1][1][0] == "attr" and e[1][1][2] == "clear" for e in evs) for _ in [0]):
             chk.bad("O3.1", uq.qual, "flushed payloads stay queued: they are started again on the next run", node=uq.node, stmt="flush-not-cleared")
             ok = False
-    mr = prog.method(META, "_manage_runners")
-    n_flush = len([n for n in ast.walk(mr.node) if isinstance(n, ast.Call) and util.dotted(n.func) == "self._unqueue_payloads"])
+    mr = slots.supervisor(prog)
+    n_flush = len([n for n in ast.walk(mr.node) if isinstance(n, ast.Call) and util.dotted(n.func) == "self." + slots.unqueuer(prog).name])
     if n_flush != 1:
         chk.bad("O3.1", mr.qual, "the queue is flushed %d times per run (required: exactly once)" % n_flush, node=mr.node, stmt="flush-per-run")
         ok = False
     if ok:
         chk.ok("O3.1", uq.qual, "each queue is re-registered once, completely, under its own flavour, then cleared; one flush per run", node=uq.node)
     # ---- runners keyed by their class's flavour
-    launch = prog.method(META, "_launch_runners")
+    launch = slots.launcher(prog)
     ok = False
     for n in ast.walk(launch.node):
         if isinstance(n, ast.Assign):
             for t in n.targets:
-                if isinstance(t, ast.Subscript) and util.dotted(t.value) == "self._runners":
+                if isinstance(t, ast.Subscript) and util.dotted(t.value) == "self." + slots.runners_map(prog):
                     chk.count()
                     key = util.unparse(t.slice)
                     ctor = util.unparse(n.value.func) if isinstance(n.value, ast.Call) else None
@@ -407,7 +408,7 @@ def service_typestate(chk):
                     if isinstance(node, (ast.Assign, ast.AugAssign)):
                         tg = node.targets if isinstance(node, ast.Assign) else [node.target]
                         for t in tg:
-                            if isinstance(t, ast.Attribute) and t.attr == "_started":
+                            if isinstance(t, ast.Attribute) and t.attr == slots.started_flag(prog):
                                 n += 1
                                 chk.count()
                                 val = node.value.value if isinstance(node.value, ast.Constant) else "?"
@@ -426,7 +427,7 @@ def service_typestate(chk):
         for o in outs:
             chk.count()
             evs = o.path.events
-            st = [e for e in evs if e[0] == "store" and e[1] == ("attr", SELF, "_started")]
+            st = [e for e in evs if e[0] == "store" and e[1] == ("attr", SELF, slots.started_flag(prog))]
             regs = [e[1] for e in evs if e[0] == "call" and e[1][1][0] == "attr" and e[1][1][2] == "register_payload"]
             if alive:
                 if len(regs) != 1 or not st or st[-1][2] != ("const", True):
@@ -448,7 +449,7 @@ def service_typestate(chk):
     run_g = prog.pick(unit.methods.get("running", []), "getter")
     if run_g is not None:
         outs = Interp(prog, run_g).run()
-        if not (len(outs) == 1 and outs[0].kind == "return" and outs[0].value == ("attr", SELF, "_started")):
+        if not (len(outs) == 1 and outs[0].kind == "return" and outs[0].value == ("attr", SELF, slots.started_flag(prog))):
             chk.bad(rule, run_g.qual, "`running` does not report the started flag", node=run_g.node, stmt="running")
             ok = False
     init = prog.method(SERVICE_UNIT, "__init__")
@@ -501,7 +502,7 @@ def sweep_rules(chk):
     for o in outs:
         evs = o.path.events
         ad = [(i, e[1]) for i, e in enumerate(evs) if e[0] == "call" and e[1][1] == ("attr", SELF, "adopt")]
-        rn = [i for i, e in enumerate(evs) if e[0] == "call" and e[1][1] == ("attr", ("attr", SELF, "_meta_runner"), "run")]
+        rn = [i for i, e in enumerate(evs) if e[0] == "call" and e[1][1] == ("attr", ("attr", SELF, slots.service_meta(prog)), "run")]
         chk.count()
         if len(ad) != 1 or len(rn) != 1 or ad[0][0] > rn[0]:
             chk.bad(rule, acc.qual, "accept does not adopt the service sweep exactly once before running the meta runner", node=acc.node, stmt="accept-order")
@@ -576,7 +577,7 @@ def sweep_rules(chk):
                 ok = False
                 continue
             seen.add((running, len(starts)))
-            if starts and list(starts[0][2]) != [("attr", SELF, "_meta_runner")]:
+            if starts and list(starts[0][2]) != [("attr", SELF, slots.service_meta(prog))]:
                 chk.bad("O3.6", st.qual, "units are started with %s instead of the runtime's meta runner" % [show(x) for x in starts[0][2]], node=st.node, stmt="start-arg")
                 ok = False
     if seen != {(True, 0), (False, 1)}:
